@@ -924,7 +924,6 @@ class C06(PropCheck):
     def finding_replays(self):
         return {
             'var-inherit-on-root': cascade_docs.replay_var_inherit_on_root,
-            'page-nth-overflow': cascade_docs.replay_page_nth_overflow,
             'inherit-skips-computed-value': cascade_docs.replay_inherit_skips_computing,
             'media-attr-case-sensitive': cascade_docs.replay_media_attr_case,
         }
@@ -952,7 +951,7 @@ MANIFEST = {
             'given; Pango character ratios are parameters; var() substitution is exercised only through mock Pending '
             'objects (token-level resolution belongs to C07); lazy-vs-eager evaluation order is exercised by reading '
             'keys in random order, not proved. Known findings: inherit reached through var() on the root element '
-            'raises TypeError; @page :nth() with integers beyond float range raises OverflowError; an inherited value '
+            'raises TypeError; an inherited value '
             'is stored without its computing function (border width with style none, display of a floated box); the '
             'media attribute of <style>/<link> is case-sensitive.',
 }
